@@ -41,8 +41,8 @@ def run(sc, tier, replay):
     thorough = tier == "thorough"
     binary = vlib.go_build(sc, "./cmd/fed", "fed")
     off = ["nodupkey", "nodirid", "nofragdirs"]
-    strata = {"core": (off + ["oddids", "richargs"], 0.7), "abstract": (off + ["abstract"], 0.3)}
-    total_worlds, ops, repeats = (1400, 12, 25) if thorough else (140, 10, 6)
+    strata = {"core": (off + ["oddids", "richargs"], 0.45), "skeleton": (off + ["skeleton"], 0.3), "abstract": (off + ["abstract"], 0.25)}
+    total_worlds, ops, repeats = (1400, 12, 25) if thorough else (280, 10, 6)
     stats = {}
     sample = None
     sample_runs = None
@@ -50,7 +50,7 @@ def run(sc, tier, replay):
         nsh = 14
         worlds = max(1, int(total_worlds * share / nsh))
         outs = fedlib.gen_traces(sc, binary, nsh, worlds, ops, ",".join(feats), cfgs="default,cached",
-                                 extra=["-mode", "repeat", "-repeats", str(repeats)], seed_base=vlib.seed() * 1000 + (0 if name == "core" else 500))
+                                 extra=["-mode", "repeat", "-repeats", str(repeats)], seed_base=vlib.seed() * 1000 + {"core": 0, "skeleton": 250}.get(name, 500))
         runs = []
         for o, r in outs:
             if r.timed_out:
